@@ -205,7 +205,7 @@ def shard_exhaustive(sh, part, parts, kmax):
 def shard_random(sh, part, parts):
     h = Harness(sh)
     rng, nprng = sh.rng('rnd', part), sh.nprng('rnd', part)
-    reps = 40 if sh.tier == 'quick' else 150
+    reps = 40 if sh.tier == 'quick' else 800
     for t in range(reps):
         k = rng.choice([1, 2, 3, 5, 8, 13, 20, 40]) if t % 3 else rng.randint(1, 40)
         hclass = rng.choice(['scoring', 'scoring', '3mr', 'Constant'])
